@@ -601,7 +601,9 @@ req0_ctx_cancel_recv(nni_aio *aio, void *arg, nng_err rv)
 	// is trying to receive without waiting for sending to complete, but
 	// it was reported in the field.  Users who want to avoid this mess
 	// should just start receiving from the send completion callback.
-	if (ctx->send_aio != NULL) {
+	// (Only if this really is the pending receive: a stale cancellation
+	// of an earlier receive must not disturb a newer request.)
+	if ((ctx->recv_aio == aio) && (ctx->send_aio != NULL)) {
 		nni_aio_set_msg(ctx->send_aio, ctx->req_msg);
 		nni_msg_header_clear(ctx->req_msg);
 		ctx->req_msg = NULL;
